@@ -2,7 +2,8 @@
   Bridge C04 — the regenerated leaf formulas of the primal/dual knapsack solver (Gen/C04.lean, produced from
   the current source of pabutools/rules/maxwelfare.py on every run) are the formulas of the model
   (PabuModel/MaxWelfare.lean): item efficiency, the capacity test, the incumbent update, the two pruning
-  tests of `primal_dual_branch_impl`, and the treatment of zero-cost projects.
+  tests of `primal_dual_branch_impl`, the treatment of zero-cost projects and the candidate filter
+  (positive cost and non-negative total satisfaction).
 -/
 import Gen.C04
 import PabuModel.MaxWelfare
@@ -80,12 +81,13 @@ theorem pd_left (items : Array Knap.Item) (cap : Rat) (f lo b : Nat) (P W : Rat)
           (Knap.pd items cap f (lo - 1) b (P - Knap.pp items (lo - 1)) (W - Knap.pw items (lo - 1)) mid inc) := by
   rw [pd_step, if_neg (by rw [hW]; simp), if_neg hlo]
 
-/-- zero-cost projects: taken iff `profit > 0`; all other free projects become knapsack items -/
+/-- zero-cost projects: taken iff `profit > 0`; of the other free projects exactly those with `profit >= 0`
+    become knapsack items (the `elif profit >= 0` of the source) -/
 theorem zeroCost (I : Inst) (profit : Pid → Rat) (init enum : List Pid) :
     MaxWelfare.primalDual I profit init enum =
       (let free := enum.filter (fun p => !init.contains p)
        let zero := free.filter (fun p => Gen.C04.zeroCost (I.cost p) && Gen.C04.zeroCostTaken (profit p))
-       let cands := free.filter (fun p => !Gen.C04.zeroCost (I.cost p))
+       let cands := free.filter (fun p => !Gen.C04.zeroCost (I.cost p) && Gen.C04.knapsackItem (profit p))
        let sorted := sortLe (fun a b => decide (profit b / I.cost b ≤ profit a / I.cost a)) cands
        let items : Array Knap.Item := (sorted.map (fun p => ⟨I.cost p, profit p⟩)).toArray
        let cap := I.budget - costOf I.cost (init ++ zero)
